@@ -1082,6 +1082,7 @@ func TestC11(t *testing.T) {
 	c11F11(t, rep, orc)
 	c11Isolation(t, rep, orc, rng.Fork(), env)
 	rep.Note("wall: allocators %.1fs, isolation+f11 %.1fs", t1.Sub(t0).Seconds(), time.Since(t1).Seconds())
+	c11ExtraWireIDs(t, rep, rng.Fork(), env)
 	if rep.Failed() {
 		t.Fail()
 	}
